@@ -114,6 +114,15 @@ const GENERATED_ODD: &[(&str, &str)] = &[
     ("schema_cedar", "entity A in [B]; entity B in [A]; action a in [b]; action b in [a];"),
     ("schema_cedar", "namespace A::B::C { entity D in [A::B::C::D, D]; action \"a\" in [A::B::C::Action::\"a\"] appliesTo { principal: D, resource: D, context: {} }; }"),
     ("schema_cedar", "entity E tags Set<Set<E>>; entity F = { r: { s: { t: E } } } tags F; action a appliesTo { principal: [E, F], resource: [E, F], context: { e: E, \"if\": Bool } };"),
+    ("schema_cedar", ";"),
+    ("schema_cedar", "  ;"),
+    ("schema_cedar", "namespace N { ; }"),
+    ("schema_cedar", "entity E; action a in [__cedar::Action::\"b\"] appliesTo { principal: [E], resource: [E] };"),
+    ("schema_cedar", "namespace __cedar { entity E; } entity F in [__cedar::E] = { x: __cedar::String, y: __cedar::ipaddr }; action a appliesTo { principal: [__cedar::E], resource: [F], context: __cedar::Record };"),
+    ("schema_json", r#"{"": {"entityTypes": {"E": {"memberOfTypes": ["__cedar::E"]}}, "actions": {"a": {"memberOf": [{"id": "b", "type": "__cedar::Action"}], "appliesTo": {"principalTypes": ["__cedar::E"], "resourceTypes": ["E"]}}}}, "__cedar": {"entityTypes": {}, "actions": {}}}"#),
+    ("policies", "permit(principal, action in [], resource);\npermit(principal, action in [Action::\"a\"], resource) when { principal in [] && [].containsAll([]) && {} == {} };\npermit(principal == ?principal, action in [], resource in ?resource);"),
+    ("policies", "permit(principal, action, resource) when { datetime(\"2024-01-01T00:00:00.\u{661}\u{662}\u{663}Z\") < datetime(\"2024-01-01\") };\npermit(principal, action, resource) when { datetime(\"2024-01-01T00:00:00+\u{ff10}\u{ff11}\u{ff10}\u{ff10}\") < datetime(\"2024-01-01\") };\npermit(principal, action, resource) when { decimal(\"\u{661}.\u{662}\").lessThan(decimal(\"1.0\")) };\npermit(principal, action, resource) when { ip(\"\u{661}.1.1.1/\u{663}\").isIpv4() };\npermit(principal, action, resource) when { duration(\"\u{661}h\u{ff12}m\").toSeconds() > 0 };\npermit(principal, action, resource) when { datetime(\"\u{662}\u{660}24-01-01\") < datetime(\"2024-\u{ff10}1-01T\u{661}0:00:00Z\") };"),
+    ("context_json", "{\"d\": {\"__extn\": {\"fn\": \"datetime\", \"arg\": \"2024-01-01T00:00:00.\u{661}\u{662}\u{663}Z\"}}, \"e\": {\"__extn\": {\"fn\": \"decimal\", \"arg\": \"\u{661}.\u{662}\"}}, \"f\": {\"__extn\": {\"fn\": \"duration\", \"arg\": \"\u{ff11}h\"}}, \"g\": {\"__extn\": {\"fn\": \"ip\", \"arg\": \"\u{661}.2.3.4\"}}}"),
     // schema JSON
     ("schema_json", r#"{"": {"entityTypes": {"E": {"shape": {"type": "Set"}}}, "actions": {}}}"#),
     ("schema_json", r#"{"": {"entityTypes": {"E": {"shape": {"type": "Record", "attributes": []}}}, "actions": {}}}"#),
@@ -183,6 +192,13 @@ fn nested(depth: usize) -> Vec<(&'static str, String)> {
     out.push(("policies", format!("permit(principal, action, resource) when {{ {} true {} }};", "if true then ".repeat(d / 2), " else false".repeat(d / 2))));
     out.push(("policies", format!("permit(principal, action, resource) when {{ {} }};", vec!["true"; d].join(" && "))));
     out.push(("policies", format!("permit(principal, action, resource) when {{ {}1{} == 1 }};", "{\"a\": ".repeat(d), "}".repeat(d))));
+    // (the chain of length 48 is a designated time-limited case; a shorter one is an ordinary seed)
+    out.push(("policies", format!("permit(principal, action, resource) when {{ {} true }};", "if context.n > 0 then false else ".repeat(d.min(16)))));
+    // `is .. in` and extended `has` share their left operand when desugared; kept shallow here
+    // (deep ones are the designated time-limited cases, see `designated_slow`)
+    let dd = d.min(6);
+    out.push(("policies", format!("permit(principal, action, resource) when {{ {}principal{} }};", "(".repeat(dd), " is User in resource)".repeat(dd))));
+    out.push(("policies", format!("permit(principal, action, resource) when {{ {}principal{} }};", "(".repeat(dd), " has a.b)".repeat(dd))));
     out.push(("expression", format!("{}1{}", "(".repeat(d), ")".repeat(d))));
     out.push(("context_json", format!("{{\"a\": {}1{}}}", "[".repeat(d), "]".repeat(d))));
     out.push(("context_json", format!("{}{{}}{}", "{\"a\": ".repeat(d), "}".repeat(d))));
@@ -195,6 +211,9 @@ pub struct Pools {
     pub seeds: Vec<SeedDoc>,
     /// (seed index, kind of exhaustive fault, position) enumerated for the quick tier
     pub exhaustive: Vec<(u32, u8, u32)>,
+    /// the subset enumerated by the quick tier (every truncation point only for documents of at most
+    /// 1 KiB and for the generated ones; every third one for the larger sample documents)
+    pub exhaustive_quick: Vec<(u32, u8, u32)>,
     pub schemas: Vec<Schema>,
     pub requests: Vec<Request>,
     pub entities: Entities,
@@ -268,6 +287,10 @@ pub fn pools() -> &'static Pools {
         let mut extra = vec![];
         for s in &seeds {
             let Ok(text) = std::str::from_utf8(&s.bytes) else { continue };
+            // deeply nested documents are only ever handed to cedar inside a case (under the watchdog)
+            if s.name.starts_with("gen_nested") || s.name.starts_with("gen_like_stars") || s.name.starts_with("gen_long_ident") {
+                continue;
+            }
             // building derived documents calls into cedar: a panic there must not take the harness
             // down (the case that feeds the same seed to its entry point will report it)
             let derived = std::panic::catch_unwind(std::panic::AssertUnwindSafe(|| {
@@ -381,6 +404,15 @@ pub fn pools() -> &'static Pools {
                 }
             }
         }
+        // documents that consist of one or two grammar tokens, through each text entry point
+        for (e, _) in TOKEN_DOC_ENTRIES.iter().enumerate() {
+            for t1 in 0..TOKENS.len() {
+                exhaustive.push((e as u32, 6u8, (t1 as u32) * 256 + 255));
+                for t2 in 0..TOKENS.len() {
+                    exhaustive.push((e as u32, 6u8, (t1 as u32) * 256 + t2 as u32));
+                }
+            }
+        }
         let mut schemas = vec![];
         schemas.push(crate::worlds::batched::schema().clone());
         for s in &seeds {
@@ -399,7 +431,18 @@ pub fn pools() -> &'static Pools {
             Request::new(u("U::\"a\""), u("Action::\"x\""), u("U::\"b\""), Context::empty(), None).expect("req"),
         ];
         let entities = Entities::from_json_value(json!([{"uid": {"type": "User", "id": "alice"}, "attrs": {"level": 3, "a": {"b": {"c": 1}}}, "parents": [{"type": "Group", "id": "g"}]}, {"uid": {"type": "U", "id": "a"}, "attrs": {"flag": true}, "parents": []}]), None).expect("entities");
-        Pools { seeds, exhaustive, schemas, requests, entities }
+        let exhaustive_quick: Vec<(u32, u8, u32)> = exhaustive
+            .iter()
+            .copied()
+            .filter(|(si, kind, pos)| {
+                if *kind != 0 {
+                    return true;
+                }
+                let sd = &seeds[*si as usize];
+                sd.bytes.len() <= 1024 || sd.name.starts_with("gen_") || pos % 3 == 0
+            })
+            .collect();
+        Pools { seeds, exhaustive, exhaustive_quick, schemas, requests, entities }
     })
 }
 
@@ -428,9 +471,13 @@ pub struct Case {
     pub line_width: u16,
     pub indent: u8,
     pub schema: u8,
+    /// designated slow case: executed in a child process of its own with this wall-clock limit
+    #[serde(default)]
+    pub time_limit_s: Option<u32>,
 }
 
-const TOKENS: &[&str] = &["permit", "forbid", "when", "unless", "principal", "action", "resource", "context", "&&", "||", "==", "in", "has", "like", "is", "if", "then", "else", "::", "?principal", "?resource", "(", ")", "{", "}", "[", "]", "\"", "\\", "@", ";", ",", ".", "-", "!", "\\u{", "__entity", "__extn", "null", "true", "9223372036854775808", "\u{1F600}", "\0", "entity", "namespace", "appliesTo", "Set<", ">", "type"];
+const TOKEN_DOC_ENTRIES: &[&str] = &["policies_text", "schema_cedar", "expression_text"];
+const TOKENS: &[&str] = &["permit", "forbid", "when", "unless", "principal", "action", "resource", "context", "&&", "||", "==", "in", "has", "like", "is", "if", "then", "else", "::", "?principal", "?resource", "(", ")", "{", "}", "[", "]", "\"", "\\", "@", ";", ",", ".", "-", "!", "\\u{", "__entity", "__extn", "null", "true", "9223372036854775808", "\u{1F600}", "\0", "entity", "namespace", "appliesTo", "Set<", ">", "type", "__cedar", "__cedar::", "\u{661}", "\u{ff10}", "[]", "{}", "in []", "action", "::\"\"", "*", "ip(", "decimal(", "datetime(", "duration("];
 
 fn hex(b: &[u8]) -> String {
     let mut s = String::with_capacity(b.len() * 2);
@@ -445,7 +492,7 @@ fn unhex(s: &str) -> Vec<u8> {
 
 fn apply_fault(rng: &mut Rng, cur: &mut Vec<u8>, seeds: &[SeedDoc], original: &[u8]) -> &'static str {
     let n = cur.len();
-    match rng.below(16) {
+    match rng.below(17) {
         0 => {
             if n > 0 {
                 cur.truncate(rng.below(n));
@@ -568,6 +615,20 @@ fn apply_fault(rng: &mut Rng, cur: &mut Vec<u8>, seeds: &[SeedDoc], original: &[
                 }
                 "token_lost"
             }
+        }
+        15 => {
+            // a digit comes back as another Unicode decimal digit
+            let digits: Vec<usize> = cur.iter().enumerate().filter(|(_, c)| c.is_ascii_digit()).map(|(i, _)| i).collect();
+            if !digits.is_empty() {
+                let at = *rng.pick(&digits);
+                let d = (cur[at] - b'0') as u32;
+                let base = *rng.pick(&[0x0660u32, 0xff10, 0x0966, 0x1d7ce]);
+                let ch = char::from_u32(base + d).unwrap_or('0');
+                let mut buf = [0u8; 4];
+                let enc = ch.encode_utf8(&mut buf).as_bytes().to_vec();
+                cur.splice(at..at + 1, enc);
+            }
+            "unicode_digit_substitution"
         }
         14 => {
             // an escape character appears in front of an arbitrary character
@@ -832,7 +893,27 @@ impl Pipe<'_> {
                 self.render("policyset_from_json", e, "");
             }
         }
-        self.stage("to_pst", || ps.to_pst().map(|p| format!("{p:?}").len()));
+        if let Some(Ok(pst)) = self.stage("to_pst", || ps.to_pst()) {
+            self.stage("pst debug", || format!("{pst:?}").len());
+            if let Some(Ok(back)) = self.stage("from_pst(to_pst)", || PolicySet::from_pst(pst)) {
+                self.stage("from_pst display/to_json", || (back.to_string().len(), back.to_json().is_ok()));
+            }
+        }
+        for pol in ps.policies().take(4) {
+            if let Some(Ok(pp)) = self.stage("policy to_pst", || pol.to_pst()) {
+                self.stage("pst policy display", || pp.to_string().len());
+                if let Some(Ok(b)) = self.stage("Policy::from_pst", || Policy::from_pst(pp)) {
+                    self.stage("from_pst policy to_json/display", || (b.to_json().is_ok(), b.to_string().len()));
+                }
+            }
+        }
+        for t in ps.templates().take(3) {
+            if let Some(Ok(pt)) = self.stage("template to_pst", || t.to_pst()) {
+                if let Some(Ok(b)) = self.stage("Template::from_pst", || Template::from_pst(pt)) {
+                    self.stage("from_pst template to_json/display", || (b.to_json().is_ok(), b.to_string().len()));
+                }
+            }
+        }
         if let Some(Ok(b)) = self.stage("proto encode", || ps.encode()) {
             self.stage("proto decode(encode)", || PolicySet::decode(&b[..]).is_ok());
         }
@@ -1283,7 +1364,35 @@ impl Pipe<'_> {
     }
 }
 
+/// Documents on which some pipeline stage is known, or suspected, to take time exponential in a
+/// nesting depth that is within the property's bound. They run in a child process of their own
+/// with a wall-clock limit, so that one of them costs seconds, not the watchdog's minutes.
+pub fn designated_slow() -> Vec<(String, String)> {
+    let d = 40;
+    vec![
+        ("gen_exptime_is_in_nest_40".to_string(), format!("permit(principal, action, resource) when {{ {}principal{} }};", "(".repeat(d), " is User in resource)".repeat(d))),
+        ("gen_exptime_has_chain_nest_40".to_string(), format!("permit(principal, action, resource) when {{ {}principal{} }};", "(".repeat(d), " has a.b)".repeat(d))),
+        ("gen_else_if_chain_48".to_string(), format!("permit(principal, action, resource) when {{ {} true }};", "if context.n > 0 then false else ".repeat(MAX_DEPTH))),
+    ]
+}
+
 fn exec(case: &Case, obs: &mut Obs) -> Option<Violation> {
+    if let (Some(limit), true) = (case.time_limit_s, std::env::var("VERIF_IN_CHILD").is_err()) {
+        obs.count("evaluations");
+        obs.count("time_limited_cases");
+        let inner = Case { time_limit_s: None, ..case.clone() };
+        let world = std::sync::Arc::new(StorageFaults);
+        let v = match run_case_isolated(&world, &inner, limit as u64) {
+            Isolated::Finished(v) => v,
+            Isolated::Died(st) => Some(Violation::new("process_death", format!("{} {}: process died: {st}", case.entry, case.seed_name), 0, "a result or an error value", format!("the process executing the case ended with {st}"))),
+            Isolated::TimedOut => Some(Violation::new("hang", format!("{} {}: no result within {limit} s, alone in a fresh process", case.entry, case.seed_name), 0, "termination (the same pipeline takes milliseconds at nesting depth 8)", "still running")),
+        };
+        obs.event(format!("{} {} time-limited v={}", case.entry, case.seed_name, v.as_ref().map(|x| x.kind.clone()).unwrap_or_default()));
+        return match v {
+            Some(v) if obs.is_known(&v) => None,
+            other => other,
+        };
+    }
     let bytes = unhex(&case.bytes_hex);
     obs.count("evaluations");
     obs.count("logical_steps");
@@ -1321,14 +1430,17 @@ impl World for StorageFaults {
         "fault_enumeration"
     }
     fn runs(&self, tier: Tier) -> u64 {
-        let ex = pools().exhaustive.len() as u64;
+        let d = designated_slow().len() as u64;
         match tier {
-            Tier::Quick => ex + 60_000,
-            Tier::Thorough => ex + 6_000_000,
+            Tier::Quick => pools().exhaustive_quick.len() as u64 + d + 40_000,
+            Tier::Thorough => pools().exhaustive.len() as u64 + d + 6_000_000,
         }
     }
     fn crash_isolated(&self) -> bool {
         true
+    }
+    fn describe(&self, case: &Case) -> String {
+        format!("{} {}", case.entry, case.seed_name)
     }
     fn case_stack_mib(&self, case: &Case) -> usize {
         case.stack_mib.max(1) as usize
@@ -1336,8 +1448,9 @@ impl World for StorageFaults {
     fn generate(&self, seed: u64, _tier: Tier) -> Case {
         self.generate_indexed(u64::MAX, seed, _tier)
     }
-    fn generate_indexed(&self, index: u64, seed: u64, _tier: Tier) -> Case {
+    fn generate_indexed(&self, index: u64, seed: u64, tier: Tier) -> Case {
         let p = pools();
+        let exhaustive: &Vec<(u32, u8, u32)> = if tier == Tier::Quick { &p.exhaustive_quick } else { &p.exhaustive };
         let mut rng = Rng::sub(seed, "faults");
         let mut hs = Rng::sub(seed, "hashkeys");
         let mut knobs = Rng::sub(seed, "knobs");
@@ -1346,9 +1459,25 @@ impl World for StorageFaults {
         let line_width = *knobs.pick(&[0u16, 1, 20, 80, 200]);
         let indent = *knobs.pick(&[0u8, 2, 8]);
         let schema = knobs.below(4) as u8;
-        if (index as usize) < p.exhaustive.len() {
-            // exhaustive part: one torn write / one bit flip at an enumerated position, native entry point
-            let (si, kind, pos) = p.exhaustive[index as usize];
+        let slow = designated_slow();
+        if (index as usize) < slow.len() {
+            let (name, text) = &slow[index as usize];
+            return Case { hash_seed: hs.next(), entry: "policies_text".into(), seed_name: name.clone(), bytes_hex: hex(text.as_bytes()), faults: vec![], stack_mib: 64, reader, line_width: 80, indent: 2, schema: 0, time_limit_s: Some(20) };
+        }
+        let index = index.wrapping_sub(slow.len() as u64);
+        if (index as usize) < exhaustive.len() && exhaustive[index as usize].1 == 6 {
+            let (e, _, pos) = exhaustive[index as usize];
+            let (t1, t2) = ((pos / 256) as usize, (pos % 256) as usize);
+            let mut doc = TOKENS[t1 % TOKENS.len()].to_string();
+            if t2 != 255 {
+                doc.push(' ');
+                doc.push_str(TOKENS[t2 % TOKENS.len()]);
+            }
+            return Case { hash_seed: hs.next(), entry: TOKEN_DOC_ENTRIES[e as usize % TOKEN_DOC_ENTRIES.len()].to_string(), seed_name: "token_document".into(), bytes_hex: hex(doc.as_bytes()), faults: vec!["document_replaced_by_tokens".into()], stack_mib, reader, line_width, indent, schema, time_limit_s: None };
+        }
+        if (index as usize) < exhaustive.len() {
+            // exhaustive part: one enumerated fault at an enumerated position, native entry point
+            let (si, kind, pos) = exhaustive[index as usize];
             let s = &p.seeds[si as usize];
             let mut b = s.bytes.clone();
             let fault = match kind {
@@ -1389,7 +1518,7 @@ impl World for StorageFaults {
                 }
             };
             let entries = native_entries(s.kind);
-            return Case { hash_seed: hs.next(), entry: entries[(pos as usize + si as usize) % entries.len()].to_string(), seed_name: s.name.clone(), bytes_hex: hex(&b), faults: vec![fault.to_string()], stack_mib, reader, line_width, indent, schema };
+            return Case { hash_seed: hs.next(), entry: entries[(pos as usize + si as usize) % entries.len()].to_string(), seed_name: s.name.clone(), bytes_hex: hex(&b), faults: vec![fault.to_string()], stack_mib, reader, line_width, indent, schema, time_limit_s: None };
         }
         let si = rng.below(p.seeds.len());
         let s = &p.seeds[si];
@@ -1412,7 +1541,7 @@ impl World for StorageFaults {
             faults.push("wrong_format_delivery".to_string());
             rng.pick_str(ENTRIES).to_string()
         };
-        Case { hash_seed: hs.next(), entry, seed_name: s.name.clone(), bytes_hex: hex(&b), faults, stack_mib, reader, line_width, indent, schema }
+        Case { hash_seed: hs.next(), entry, seed_name: s.name.clone(), bytes_hex: hex(&b), faults, stack_mib, reader, line_width, indent, schema, time_limit_s: None }
     }
     fn hash_seed(&self, case: &Case) -> u64 {
         case.hash_seed
